@@ -10,31 +10,40 @@ variable {env : Env} {sep : Str}
 
 /-- the hypotheses on the schema, bundled -/
 def Good (env : Env) (s : Schema) : Prop :=
-  wf s = true ∧ prefixFree s = true ∧ compoundFree s = true ∧ blankSettled env s = true ∧
-    arraysScalar s = true
+  wf s = true ∧ prefixFree s = true ∧ blankSettled env s = true ∧ arraysScalar s = true
 
 theorem good_dict {nm : Option Str} {o : Bool} {mode : DictMode} {fields : List Schema}
     (h : Good env (.dict nm o mode fields)) :
     (namesOf fields).Nodup ∧ (∀ g ∈ fields, g.name.isSome) ∧ NamesPF fields ∧ ∀ f ∈ fields, Good env f := by
-  obtain ⟨hw, hpf, hcf, hbs, has⟩ := h
+  obtain ⟨hw, hpf, hbs, has⟩ := h
   simp only [wf, Bool.and_eq_true] at hw
   simp only [prefixFree, Bool.and_eq_true] at hpf
-  simp only [compoundFree] at hcf
   simp only [blankSettled] at hbs
   simp only [arraysScalar] at has
   exact ⟨by simpa using hw.2, allSome_of fields hw.1.2, namesPF_of_all fields hpf.2,
-    fun f hf => ⟨wf_of_mem hw.1.1 f hf, prefixFree_of_mem hpf.1 f hf, compoundFree_of_mem hcf f hf,
+    fun f hf => ⟨wf_of_mem hw.1.1 f hf, prefixFree_of_mem hpf.1 f hf,
+      blankSettled_of_mem hbs f hf, arraysScalar_of_mem has f hf⟩⟩
+
+theorem good_compound {nm : Option Str} {o : Bool} {k : Nat} {fields : List Schema}
+    (h : Good env (.compound nm o k fields)) :
+    (namesOf fields).Nodup ∧ (∀ g ∈ fields, g.name.isSome) ∧ NamesPF fields ∧ ∀ f ∈ fields, Good env f := by
+  obtain ⟨hw, hpf, hbs, has⟩ := h
+  simp only [wf, Bool.and_eq_true] at hw
+  simp only [prefixFree, Bool.and_eq_true] at hpf
+  simp only [blankSettled] at hbs
+  simp only [arraysScalar] at has
+  exact ⟨by simpa using hw.2, allSome_of fields hw.1.2, namesPF_of_all fields hpf.2,
+    fun f hf => ⟨wf_of_mem hw.1.1 f hf, prefixFree_of_mem hpf.1 f hf,
       blankSettled_of_mem hbs f hf, arraysScalar_of_mem has f hf⟩⟩
 
 theorem good_list {nm : Option Str} {o p : Bool} {mx : Nat} {member : Schema}
     (h : Good env (.list nm o p mx member)) : Good env member := by
-  obtain ⟨hw, hpf, hcf, hbs, has⟩ := h
+  obtain ⟨hw, hpf, hbs, has⟩ := h
   simp only [wf] at hw
   simp only [prefixFree] at hpf
-  simp only [compoundFree] at hcf
   simp only [blankSettled] at hbs
   simp only [arraysScalar] at has
-  exact ⟨hw, hpf, hcf, hbs, has⟩
+  exact ⟨hw, hpf, hbs, has⟩
 
 /-- the value `prS` gives a picked field -/
 def vOf (K : List (Str × Str)) (V : Schema → Elem) (f : Schema) : Elem :=
@@ -134,11 +143,11 @@ theorem stable_pick (u : Bool) (req : Schema → Bool) (fields : List Schema)
     refine ⟨fun _ => hst, fun ht => ?_⟩
     rw [hk] at ht
     have hemf := (touched_false_iff fields hnd hsome hpf R hRnd f hf u).mp ht _ hl
-    obtain ⟨hw, hp, hc, _, _⟩ := hgood f hf
+    obtain ⟨hw, hp, _, _⟩ := hgood f hf
     cases hr : req f with
     | true =>
       simp only [if_true]
-      exact bl_stable f hw hp hc u _ hok hst hemf
+      exact bl_stable f hw hp u _ hok hst hemf
     | false =>
       simp only [Bool.false_eq_true, if_false]
       exact hE hr hemf
@@ -150,7 +159,17 @@ theorem stableS_blank : ∀ s : Schema, Good env s → ∀ u : Bool, StableS env
   induction s using schema_ind with
   | hleaf nm o k => intro _ u; simp [blank, StableS]
   | hjoined nm o k mem => intro _ u; simp [blank, StableS]
-  | hcompound nm o k fields ih => intro _ u; simp [blank, StableS]
+  | hcompound nm o k fields ih =>
+    intro hg u
+    obtain ⟨hnd, hsome, hpf, hgood⟩ := good_compound hg
+    simp only [blank, blankFields_sel, StableS]
+    apply stable_pick u (fun _ => true) fields hnd hsome hpf hgood [] (fun f => blank f) _ _
+      (blankSel_eq_pick _ _ _) _ rfl
+    intro f hf _
+    have hv : vOf [] (fun f => blank f) f = blank f := by simp [vOf]
+    rw [hv]
+    obtain ⟨hw, _, hbs, has⟩ := hgood f hf
+    exact ⟨okS_blank f hw hbs has, ih f hf (hgood f hf) u, fun hr => by cases hr⟩
   | hlist nm o p mx member ih => intro _ u; simp [blank, StableS, dropTrailing]
   | harray nm o p member ih => intro _ u; simp [blank, StableS]
   | hdict nm o mode fields ih =>
@@ -164,7 +183,7 @@ theorem stableS_blank : ∀ s : Schema, Good env s → ∀ u : Bool, StableS env
     have ht : touched [] f = false := rfl
     have hv : vOf [] (fun f => blank f) f = blank f := by simp [vOf]
     rw [hv]
-    obtain ⟨hw, _, _, hbs, has⟩ := hgood f hf
+    obtain ⟨hw, _, hbs, has⟩ := hgood f hf
     refine ⟨okS_blank f hw hbs has, ih f hf (hgood f hf) u, fun hr => ?_⟩
     rw [hr, ht] at h2; cases h2
 
@@ -183,34 +202,33 @@ theorem dropTrailing_map_idem' {α β} (p : α → Bool) (q : β → Bool) (g : 
     simp
 
 theorem stableS_prS : ∀ s : Schema, Good env s →
-    ∀ (u : Bool) (e : Elem), OkS env s e → StableS env sep u s (prS env sep u s e) := by
+    ∀ (u : Bool) (e : Elem), OkS env s e → compoundsFull s e = true →
+      StableS env sep u s (prS env sep u s e) := by
   intro s
   induction s using schema_ind with
   | hleaf nm o k =>
-    intro _ u e _
+    intro _ u e _ _
     rw [prS, pr]
     cases e <;> simp [StableS]
   | hjoined nm o k mem =>
-    intro _ u e hok
+    intro _ u e hok _
     cases e with
     | joined t ms => simp only [prS, pr]; split <;> simp [StableS]
     | _ => simp [OkS, OkP] at hok
-  | hcompound nm o k fields ih =>
-    intro hg
-    simp [Good, compoundFree] at hg
   | hdict nm o mode fields ih =>
-    intro hg u e hok
+    intro hg u e hok hcf
     cases e with
     | dict ms =>
       obtain ⟨hnd, hsome, hpf, hgood⟩ := good_dict hg
       simp only [OkS] at hok
+      simp only [compoundsFull] at hcf
       simp only [prS]
       rw [prSPick_eq, prSPick_eq]
       simp only [StableS]
       apply stable_pick u (isReq mode) fields hnd hsome hpf hgood
         (innerPairs env sep u fields ms) (valS env sep u ms) _ _ rfl _ rfl
       intro f hf h2
-      obtain ⟨hw, hp, hc, hbs, has⟩ := hgood f hf
+      obtain ⟨hw, hp, hbs, has⟩ := hgood f hf
       cases ht : touched (innerPairs env sep u fields ms) f with
       | true =>
         obtain ⟨e, hl, hemf⟩ := (touched_iff fields hnd hsome hpf ms hok.1 f hf u).mp ht
@@ -218,11 +236,12 @@ theorem stableS_prS : ∀ s : Schema, Good env s →
           simp only [vOf, ht, if_true, valS, hl]
         rw [hv]
         have hoke := okS_member_lookup hnd hok.2 hf (hsome f hf) hl
-        refine ⟨prS_okS f hw hbs has u e hoke, ih f hf (hgood f hf) u e hoke, fun _ hem' => ?_⟩
+        have hcfe := compoundsFullMs_get hcf f hf e hl
+        refine ⟨prS_okS f hw hbs has u e hoke, ih f hf (hgood f hf) u e hoke hcfe, fun _ hem' => ?_⟩
         cases u with
         | false => exact lvlEmpty_of_emitsB_false hem'
         | true =>
-          rw [emitsB_prS_true f hw hp hc e hoke hemf] at hem'
+          rw [emitsB_prS_true f hw hp e hoke hcfe hemf] at hem'
           cases hem'
       | false =>
         have hv : vOf (innerPairs env sep u fields ms) (valS env sep u ms) f = blank f := by
@@ -231,17 +250,51 @@ theorem stableS_prS : ∀ s : Schema, Good env s →
         refine ⟨okS_blank f hw hbs has, stableS_blank f (hgood f hf) u, fun hr => ?_⟩
         rw [hr, ht] at h2; cases h2
     | _ => simp [OkS] at hok
+  | hcompound nm o k fields ih =>
+    intro hg u e hok hcf
+    cases e with
+    | dict ms =>
+      obtain ⟨hnd, hsome, hpf, hgood⟩ := good_compound hg
+      simp only [OkS] at hok
+      simp only [compoundsFull, Bool.and_eq_true, decide_eq_true_eq] at hcf
+      simp only [prS]
+      rw [prSPick_eq, prSPick_eq]
+      simp only [StableS]
+      apply stable_pick u (fun _ => true) fields hnd hsome hpf hgood
+        (innerPairs env sep u fields ms) (valS env sep u ms) _ _ rfl _ rfl
+      intro f hf h2
+      obtain ⟨hw, hp, hbs, has⟩ := hgood f hf
+      cases ht : touched (innerPairs env sep u fields ms) f with
+      | true =>
+        obtain ⟨e, hl, hemf⟩ := (touched_iff fields hnd hsome hpf ms hok.1 f hf u).mp ht
+        have hv : vOf (innerPairs env sep u fields ms) (valS env sep u ms) f = prS env sep u f e := by
+          simp only [vOf, ht, if_true, valS, hl]
+        rw [hv]
+        have hoke := okS_member_lookup hnd hok.2 hf (hsome f hf) hl
+        have hcfe := compoundsFullMs_get hcf.2 f hf e hl
+        refine ⟨prS_okS f hw hbs has u e hoke, ih f hf (hgood f hf) u e hoke hcfe, fun _ hem' => ?_⟩
+        cases u with
+        | false => exact lvlEmpty_of_emitsB_false hem'
+        | true =>
+          rw [emitsB_prS_true f hw hp e hoke hcfe hemf] at hem'
+          cases hem'
+      | false =>
+        have hv : vOf (innerPairs env sep u fields ms) (valS env sep u ms) f = blank f := by
+          simp only [vOf, ht, Bool.false_eq_true, if_false]
+        rw [hv]
+        refine ⟨okS_blank f hw hbs has, stableS_blank f (hgood f hf) u, fun hr => by cases hr⟩
+    | _ => simp [OkS] at hok
   | hlist nm o p mx member ih =>
-    intro hg u e hok
+    intro hg u e hok hcf
     have hgm := good_list hg
     have hw := hgm.1
     have hp' := hgm.2.1
-    have hc := hgm.2.2.1
-    have hbs := hgm.2.2.2.1
-    have has := hgm.2.2.2.2
+    have hbs := hgm.2.2.1
+    have has := hgm.2.2.2
     have ih := ih hgm
     cases e with
     | list ms =>
+      simp only [compoundsFull, List.all_eq_true] at hcf
       simp only [OkS] at hok
       obtain ⟨_, _, hmem⟩ := hok
       simp only [prS]
@@ -251,7 +304,8 @@ theorem stableS_prS : ∀ s : Schema, Good env s →
         refine ⟨fun _ x hx => ?_, fun h => by rw [hp] at h; cases h⟩
         obtain ⟨m, hm, rfl⟩ := List.mem_map.mp hx
         have hm' := List.mem_filter.mp hm
-        exact ⟨emitsB_prS_true member hw hp' hc m (hmem m hm'.1) hm'.2, ih true m (hmem m hm'.1)⟩
+        exact ⟨emitsB_prS_true member hw hp' m (hmem m hm'.1) (hcf m hm'.1) hm'.2,
+          ih true m (hmem m hm'.1) (hcf m hm'.1)⟩
       · rename_i hp
         simp only [StableS]
         refine ⟨fun h => absurd h hp, fun _ => ⟨?_, ?_⟩⟩
@@ -262,8 +316,8 @@ theorem stableS_prS : ∀ s : Schema, Good env s →
           cases hem : emitsB env u member m with
           | true =>
             simp only [if_true]
-            exact ⟨fun _ => ih u m hokm, fun hne =>
-              bl_stable member hw hp' hc u _ (prS_okS member hw hbs has u m hokm) (ih u m hokm) hne⟩
+            exact ⟨fun _ => ih u m hokm (hcf m hm'), fun hne =>
+              bl_stable member hw hp' u _ (prS_okS member hw hbs has u m hokm) (ih u m hokm (hcf m hm')) hne⟩
           | false =>
             simp only [Bool.false_eq_true, if_false]
             exact ⟨fun _ => stableS_blank member hgm u, fun _ => LvlEq.refl _⟩
@@ -272,10 +326,10 @@ theorem stableS_prS : ∀ s : Schema, Good env s →
           apply dropTrailing_map_idem'
           intro x hx hpx
           simp only [hpx, if_true]
-          exact emitsB_prS_true member hw hp' hc x (hmem x hx) hpx
+          exact emitsB_prS_true member hw hp' x (hmem x hx) (hcf x hx) hpx
     | _ => simp [OkS] at hok
   | harray nm o p member ih =>
-    intro _ u e hok
+    intro _ u e hok _
     cases e with
     | array ms =>
       simp only [prS, pr, StableS]
